@@ -1,4 +1,5 @@
 """C18 - an execution restarted from a cache file reuses, not recomputes, cached results."""
+import asyncio
 import os
 import pickle
 import tempfile
@@ -71,7 +72,8 @@ def _round(case: Dict[str, Any], path: str) -> CaseResult:
     M = Model({"prog": P, "mc": case.get("mc", 2)})
     try:
         # ---- caching run
-        b1 = prog.build(P, mc=case.get("mc", 2))
+        is_async = bool(case.get("async"))
+        b1 = prog.build(P, is_async=is_async, mc=case.get("mc", 2))
         ids = b1.node_ids()
         site_of_id = {v: k for k, v in ids.items()}
         cmode, csel = case["cache_mode"], case.get("cache_sel")
@@ -80,7 +82,7 @@ def _round(case: Dict[str, Any], path: str) -> CaseResult:
         try:
             e1 = _executor(b1, ids, cmode, csel, cache_in=path)
             with ex1:
-                v1 = e1(*args)
+                v1 = asyncio.run(e1(*args)) if is_async else e1(*args)
         except BaseException as e:  # noqa: BLE001
             if isinstance(e, KeyboardInterrupt):
                 raise
@@ -110,7 +112,7 @@ def _round(case: Dict[str, Any], path: str) -> CaseResult:
             if cached_sites != exp_cached:
                 res.viol("cache-contents", f"file holds sites {sorted(cached_sites)}, executed were {sorted(exp_cached)}")
         # ---- restart run on a freshly built DAG
-        b2 = prog.build(P, mc=case.get("mc", 2))
+        b2 = prog.build(P, is_async=is_async, mc=case.get("mc", 2))
         rmode = case["restart_mode"]
         rsel = csel if rmode in ("target", "deps_of") else None
         sel2 = selection(M, {"T": rsel}) if rmode in ("target", "deps_of") else None
@@ -118,7 +120,7 @@ def _round(case: Dict[str, Any], path: str) -> CaseResult:
         try:
             e2 = _executor(b2, b2.node_ids(), rmode, rsel, from_cache=path)
             with ex2:
-                v2 = e2(*args)
+                v2 = asyncio.run(e2(*args)) if is_async else e2(*args)
         except BaseException as e:  # noqa: BLE001
             if isinstance(e, KeyboardInterrupt):
                 raise
@@ -139,7 +141,7 @@ def _round(case: Dict[str, Any], path: str) -> CaseResult:
         res.evals = 2
         nfn = len(M.sites)
         res.nontrivial = 0 < len(cached_sites) < nfn
-        res.cls("cache-" + cmode, "restart-" + rmode)
+        res.cls("cache-" + cmode, "restart-" + rmode, "async" if is_async else "sync")
         res.note = {"cached_sites": sorted(cached_sites), "restart_entered": sorted(entered)}
         return res
     finally:
@@ -152,7 +154,7 @@ def cases(draw: Any, tier: str) -> Dict[str, Any]:
     P = draw(gen.flat_prog(min_sites=3, max_sites=8, max_deps=3, resources=gen.RES, dep_kinds=("pos", "kw"),
                            n_params=npar, prio_range=(-1, 2), none_rate=0.2))
     sites = [s["site"] for s in P["body"]]
-    case: Dict[str, Any] = {"prog": P, "mc": draw(st.integers(1, 3)), "args": [draw(st.sampled_from([0, 1, "a"])) for _ in range(npar)]}
+    case: Dict[str, Any] = {"prog": P, "mc": draw(st.integers(1, 3)), "async": draw(st.booleans()), "args": [draw(st.sampled_from([0, 1, "a"])) for _ in range(npar)]}
     case["cache_mode"] = draw(st.sampled_from(["whole", "target", "target", "deps_of", "deps_of"]))
     if case["cache_mode"] != "whole":
         case["cache_sel"] = draw(st.lists(st.sampled_from(sites), min_size=1, max_size=2, unique=True))
